@@ -228,9 +228,12 @@ func classifyMapRange(L *Loaded, x *Exec, fn *ssa.Function, r *ssa.Range) orderS
 	}
 	if len(appends) > 0 {
 		// K2: the appended slice must be sorted (in this function) after the loop and before it is used otherwise
-		if sortedAfter(fn, loop, appends) {
+		if sorted, total, desc := sortedAfter(x.db, fn, loop, appends); sorted {
+			if !total {
+				problems = append(problems, "the collected slice is sorted afterwards, but "+desc+": ties keep the iteration order")
+			}
 			if len(problems) == 0 {
-				site.Class, site.OK, site.Why = "K2", true, "the collected slice is sorted after the loop"
+				site.Class, site.OK, site.Why = "K2", true, "the collected slice is sorted after the loop by a key that separates distinct elements: "+desc
 				return site
 			}
 		} else {
@@ -283,7 +286,64 @@ func definedOutside(v ssa.Value, loop map[*ssa.BasicBlock]bool) bool {
 }
 
 // sortedAfter: every slice appended to in the loop flows (through phis) into a sort call after the loop.
-func sortedAfter(fn *ssa.Function, loop map[*ssa.BasicBlock]bool, appends []ssa.Value) bool {
+// totalSort: the sort call orders by a key that separates distinct elements: the natural order of an ordered
+// element type, or a comparator under a proved contract clause whose name says so (orders-*, total-*, zero-only-*).
+// With a comparator that can tie on distinct elements the result of an (unstable) sort depends on the input order.
+func totalSort(db *ContractDB, u *ssa.Call) (bool, string) {
+	c := u.Common().StaticCallee()
+	if c == nil {
+		return false, "dynamic sort call"
+	}
+	k := calleeKey(c)
+	switch {
+	case k == "slices.Sort", k == "sort.Strings", k == "sort.Ints", k == "sort.Float64s":
+		return true, k
+	case k == "slices.SortFunc" || k == "slices.SortStableFunc" || k == "sort.Slice" || k == "sort.SliceStable":
+		if len(u.Common().Args) < 2 {
+			return false, k
+		}
+		var cf *ssa.Function
+		switch f := u.Common().Args[1].(type) {
+		case *ssa.MakeClosure:
+			cf, _ = f.Fn.(*ssa.Function)
+		case *ssa.Function:
+			cf = f
+		}
+		if cf == nil {
+			return false, k + " with an unresolvable comparator"
+		}
+		if cf.Synthetic != "" {
+			// method expression / bound method wrapper: the method it forwards to
+			for _, b := range cf.Blocks {
+				for _, in := range b.Instrs {
+					if c, ok := in.(*ssa.Call); ok {
+						if sc := c.Common().StaticCallee(); sc != nil {
+							cf = sc
+						}
+					}
+				}
+			}
+		}
+		key := normKey(cf.RelString(nil))
+		if o := cf.Origin(); o != nil {
+			key = normKey(o.RelString(nil))
+		}
+		fc := db.Funcs[key]
+		if fc != nil {
+			for _, e := range fc.Ensures {
+				if strings.HasPrefix(e.Name, "orders-") || strings.HasPrefix(e.Name, "total-") || strings.HasPrefix(e.Name, "zero-only-") {
+					fc.Used = true
+					return true, k + " by " + shortKey(key) + " (" + e.Name + ")"
+				}
+			}
+		}
+		return false, k + " by " + shortKey(key) + ": the comparator has no proved clause (orders-*/total-*/zero-only-*) that it separates distinct elements"
+	}
+	return false, k
+}
+
+func sortedAfter(db *ContractDB, fn *ssa.Function, loop map[*ssa.BasicBlock]bool, appends []ssa.Value) (bool, bool, string) {
+	total, desc := true, ""
 	for _, a := range appends {
 		seen := map[ssa.Value]bool{}
 		work := []ssa.Value{a}
@@ -307,6 +367,9 @@ func sortedAfter(fn *ssa.Function, loop map[*ssa.BasicBlock]bool, appends []ssa.
 						k := calleeKey(c)
 						if strings.HasPrefix(k, "slices.Sort") || strings.HasPrefix(k, "sort.") {
 							sorted = true
+							t, d := totalSort(db, u)
+							total = total && t
+							desc = d
 						}
 					}
 					if bi, ok := u.Common().Value.(*ssa.Builtin); ok && bi.Name() == "append" && u.Common().Args[0] == v {
@@ -325,10 +388,10 @@ func sortedAfter(fn *ssa.Function, loop map[*ssa.BasicBlock]bool, appends []ssa.
 			}
 		}
 		if !sorted {
-			return false
+			return false, false, ""
 		}
 	}
-	return true
+	return true, total, desc
 }
 
 func determinismObligations(L *Loaded, db *ContractDB, rep *Report) {
